@@ -1,5 +1,6 @@
 import Anything.Lemmas.Mul5
 import Anything.Props.C04
+import Anything.Generated.Facts
 /-!
 # C13 — quantity arithmetic obeys the field laws
 
@@ -248,6 +249,30 @@ theorem C13_div_self (a r : Numeric) (d d' : List Desc) (pa : Proportional a.uni
     congr 2; funext b; ring
 
 end Laws
+
+/-! ### "Including looked-up facts" -/
+
+/-- The quantity a shipped constant contributes when it is looked up. -/
+def factNumeric (r : Generated.FactRow) : Numeric := { value := mkFracI r.num r.den, unit := r.unit }
+
+/-- **C13 (every shipped fact is in the scope of the laws).** Each of the shipped constants
+(table regenerated from `db/*.bin.gz` through the real decoder on every run) is a quantity
+in proportional units with a non-zero denominator — so all the theorems above apply to
+looked-up facts exactly as to literals. -/
+theorem C13_facts_in_scope :
+    Generated.factChunks.all (fun c => c.all (fun r => r.den != 0 && r.unit.all (fun e => isProp e.1))) = true := by
+  decide +kernel
+
+theorem C13_fact_proportional (r : Generated.FactRow) (h : r ∈ Generated.facts) :
+    Proportional (factNumeric r).unit := by
+  unfold Generated.facts at h
+  rw [List.mem_flatten] at h
+  obtain ⟨c, hc, hr⟩ := h
+  have h1 := List.all_eq_true.mp C13_facts_in_scope c hc
+  have h2 := List.all_eq_true.mp h1 r hr
+  simp only [Bool.and_eq_true, List.all_eq_true] at h2
+  intro e he
+  exact h2.2 e he
 
 /-- The full statement (all quantities, offset scales included) — **not** a theorem:
 `1 °C + 1 K` and `1 K + 1 °C` differ in SI (known finding `C13/offset-scale-sum`).
